@@ -258,3 +258,19 @@ func TestC07(t *testing.T) { runProp(t, "C07") }
 func TestC17(t *testing.T) { runProp(t, "C17") }
 
 var _ = fmt.Sprint
+
+func fuzzProp(f *testing.F, prop string) {
+	gen := genScenario(profiles[prop])
+	stats.Fuzz(f, stats.Prop[JoeCase]{
+		ID:    prop,
+		Rule:  ruleCommon + nonTrivialRules[prop],
+		Gen:   func(rt *rapid.T) JoeCase { return JoeCase{Sc: gen(rt)} },
+		Check: checkProp(prop),
+	})
+}
+
+func FuzzC03(f *testing.F) { fuzzProp(f, "C03") }
+func FuzzC04(f *testing.F) { fuzzProp(f, "C04") }
+func FuzzC06(f *testing.F) { fuzzProp(f, "C06") }
+func FuzzC07(f *testing.F) { fuzzProp(f, "C07") }
+func FuzzC17(f *testing.F) { fuzzProp(f, "C17") }
